@@ -24,7 +24,7 @@ fn member(e: &'static Engine, prefill: usize, prods: &'static [usize], cons: &'s
     for k in 0..prefill {
         let id = 50 + k as u32;
         let (h, _) = q.push(Tracked::new(id));
-        handles.lock().unwrap()[id as usize] = Some(h);
+        handles.lock().unwrap_or_else(|e| e.into_inner())[id as usize] = Some(h);
         READY[id as usize].store(true, Ordering::SeqCst);
         pushed.push(id);
         init.push(id);
@@ -46,7 +46,7 @@ fn member(e: &'static Engine, prefill: usize, prods: &'static [usize], cons: &'s
                     hd = Some(h);
                     QOp::PushH(id, is_head)
                 });
-                handles.lock().unwrap()[id as usize] = hd;
+                handles.lock().unwrap_or_else(|e| e.into_inner())[id as usize] = hd;
                 READY[id as usize].store(true, Ordering::SeqCst);
             }
         });
@@ -94,7 +94,7 @@ fn member(e: &'static Engine, prefill: usize, prods: &'static [usize], cons: &'s
                 i += 2;
                 // wait until the producer handed the handle over (after its push returned)
                 e.wait_flag(&READY[id as usize]);
-                let h = handles.lock().unwrap()[id as usize].take().expect("handle");
+                let h = handles.lock().unwrap_or_else(|e| e.into_inner())[id as usize].take().expect("handle");
                 H.run(0, || QOp::Remove(id, h.remove().map(|t| t.id())));
             }
             _ => unreachable!(),
@@ -170,7 +170,7 @@ fn member(e: &'static Engine, prefill: usize, prods: &'static [usize], cons: &'s
         }
     }
     // handles are released without contention, then the queue
-    for h in handles.lock().unwrap().iter_mut() {
+    for h in handles.lock().unwrap_or_else(|e| e.into_inner()).iter_mut() {
         h.take();
     }
     drop(q);
